@@ -69,7 +69,35 @@ theorem computeMatrices_ok (pp : Params F D) (coeffs : List F) (r : Mat F × Mat
   | false => rw [hf] at h; simp at h
   | true => rw [hf] at h; simpa using h
 
-/-- more coefficients than the matrix has entries: refused -/
+/-- what `fitsDims` says: at most `n·m` coefficients, and `m = ⌈len / n⌉` -/
+theorem fitsDims_iff (dims : Nat → Nat × Nat) (coeffs : List F) :
+    fitsDims dims coeffs = true ↔
+      (coeffsOrZero coeffs).length
+          ≤ (dims (coeffsOrZero coeffs).length).1 * (dims (coeffsOrZero coeffs).length).2 ∧
+        ceilDiv (coeffsOrZero coeffs).length (dims (coeffsOrZero coeffs).length).1
+          = (dims (coeffsOrZero coeffs).length).2 := by
+  unfold fitsDims
+  exact decide_eq_true_iff
+
+/-- `len ≤ ⌈len / n⌉ · n` for `n > 0` -/
+theorem le_mul_ceilDiv (len n : Nat) (hn : 0 < n) : len ≤ n * ceilDiv len n := by
+  unfold ceilDiv
+  have h1 := Nat.div_add_mod (len + n - 1) n
+  have h2 := Nat.mod_lt (len + n - 1) hn
+  omega
+
+/-- a shape law with `n > 0` and `m = ⌈len / n⌉` (Ligero's `compute_dimensions`) fits every
+coefficient vector -/
+theorem fitsDims_of_ceilDiv (dims : Nat → Nat × Nat) (coeffs : List F)
+    (h : ∀ len, 0 < (dims len).1 ∧ (dims len).2 = ceilDiv len (dims len).1) :
+    fitsDims dims coeffs = true := by
+  rw [fitsDims_iff]
+  obtain ⟨hn, hm⟩ := h (coeffsOrZero coeffs).length
+  rw [hm]
+  exact ⟨le_mul_ceilDiv _ _ hn, rfl⟩
+
+/-- more coefficients than the matrix has entries, or a matrix of another width than `⌈len / n⌉`:
+refused -/
 theorem computeMatrices_oversize (pp : Params F D) (coeffs : List F)
     (h : fitsDims pp.dims coeffs = false) : computeMatrices pp coeffs = .error .abort := by
   unfold computeMatrices; rw [if_pos h]
@@ -319,7 +347,8 @@ theorem encodeWf_ok_iff (enc : List F → Except Err (List F)) (r : List F) (wf 
 
 /-- **The published relation** of one opening: what `check` tests before the value, stated with
 positions: lengths (of `v`, of the well-formedness vector, and of the encoding of `v` against the
-codeword length the commitment announces); a Merkle path with the transcript's leaf position that recomputes the root, for
+codeword length the commitment announces, and — fix D23 — of the two vectors of `tensor` against the
+announced matrix shape: a point with the wrong number of coordinates is refused); a Merkle path with the transcript's leaf position that recomputes the root, for
 every opened column; the opened columns agree with the encodings of `v` (and, when well-formedness
 is checked, of the well-formedness vector under the coefficients `r`) at the transcript positions.
 `a` is the vector of `tensor`. -/
@@ -331,7 +360,7 @@ def PreRelation (pp : Params F D) (point : Point F) (c : Comm D) (π : Proof F D
     ∃ p, π.opening.paths[j]? = some p ∧ p.leafIndex = q ∧
       recomputeRoot pp.hs (pp.colHash col) p = c.root) ∧
   ∃ w b, pp.enc π.opening.v = .ok w ∧ w.length = c.nExtCols ∧
-    tensor point c.nCols c.nRows = .ok (a, b) ∧
+    tensor point c.nCols c.nRows = .ok (a, b) ∧ a.length = c.nCols ∧ b.length = c.nRows ∧
     (∀ (j : Nat) q, o.indices[j]? = some q → ∃ col x, π.opening.columns[j]? = some col ∧
       w[q]? = some x ∧ dot b col = x) ∧
     (pp.checkWf = true → ∃ wf ww, π.wf = some wf ∧ pp.enc wf = .ok ww ∧
@@ -358,7 +387,7 @@ theorem checkPre_ok_iff (pp : Params F D) (point : Point F) (c : Comm D) (π : P
     simp only
     constructor
     · intro h; cases h
-    · rintro ⟨_, h2, _, w, b, _, _, _, _, h7⟩
+    · rintro ⟨_, h2, _, w, b, _, _, _, _, _, _, h7⟩
       exfalso
       cases hc : pp.checkWf with
       | false =>
@@ -411,13 +440,22 @@ theorem checkPre_ok_iff (pp : Params F D) (point : Point F) (c : Comm D) (π : P
         cases h5
     | ok ab =>
       simp only
+      by_cases hl : ab.1.length = c.nCols ∧ ab.2.length = c.nRows
+      swap
+      · rw [if_pos (not_and_or.1 hl)]
+        constructor
+        · intro h; cases h
+        · rintro ⟨_, _, _, w', b, _, _, h5, la, lb, _⟩
+          cases h5
+          exact absurd ⟨la, lb⟩ hl
+      rw [if_neg (fun h => h.elim (fun h' => h' hl.1) (fun h' => h' hl.2))]
       rcases except_cases (encodeWf pp.enc o.r wf) with ⟨rw, hrw⟩ | ⟨e, hrw⟩
       swap
       · rw [hrw]
         simp only
         constructor
         · intro h; cases h
-        · rintro ⟨_, _, _, w', b, _, _, _, _, h7⟩
+        · rintro ⟨_, _, _, w', b, _, _, _, _, _, _, h7⟩
           exfalso
           rcases hwf' with ⟨hc, w0, hw0, _, rfl⟩ | ⟨hc, rfl⟩
           · obtain ⟨wf1, ww, h1, h2, _⟩ := h7 hc
@@ -437,7 +475,7 @@ theorem checkPre_ok_iff (pp : Params F D) (point : Point F) (c : Comm D) (π : P
         constructor
         · intro h
           have ha : ab.1 = a := by cases h; rfl
-          refine ⟨hv, ?_, hp', w, ab.2, rfl, hlen, by rw [← ha], ?_, ?_⟩
+          refine ⟨hv, ?_, hp', w, ab.2, rfl, hlen, by rw [← ha], by rw [← ha]; exact hl.1, hl.2, ?_, ?_⟩
           · intro hc
             rcases hwf' with ⟨_, w0, hw0, hl, _⟩ | ⟨hc', _⟩
             · exact ⟨w0, hw0, hl⟩
@@ -456,14 +494,14 @@ theorem checkPre_ok_iff (pp : Params F D) (point : Point F) (c : Comm D) (π : P
                 obtain ⟨y, hy1, hy2⟩ := h2' (o.r, ww) rfl
                 exact ⟨col, y, h1, hy1, hy2⟩
             · rw [hc] at hc'; cases hc'
-        · rintro ⟨_, _, _, w', b, h4, _, h5, _, _⟩
+        · rintro ⟨_, _, _, w', b, h4, _, h5, _, _, _, _⟩
           cases h5
           rfl
       · rw [hcc]
         simp only
         constructor
         · intro h; cases h
-        · rintro ⟨_, _, _, w', b, h4, _, h5, h6, h7⟩
+        · rintro ⟨_, _, _, w', b, h4, _, h5, _, _, h6, h7⟩
           exfalso
           cases h4; cases h5
           have : checkCols rw b w o.indices π.opening.columns = .ok () := by
@@ -488,6 +526,49 @@ theorem checkPre_ok_iff (pp : Params F D) (point : Point F) (c : Comm D) (π : P
               · cases k1
           rw [hcc] at this; cases this
 
+/-- fix D23: when `tensor` answers with vectors that do not have the lengths of the announced matrix
+shape, no proof satisfies the pre-value relation -/
+theorem not_preRelation_of_wrong_lengths (pp : Params F D) (point : Point F) (c : Comm D)
+    (π : Proof F D) (o : Oracle F) (a b : List F) (ht : tensor point c.nCols c.nRows = .ok (a, b))
+    (hl : a.length ≠ c.nCols ∨ b.length ≠ c.nRows) (a' : List F) : ¬ PreRelation pp point c π o a' := by
+  rintro ⟨_, _, _, w, b', _, _, ht', hla, hlb, _⟩
+  rw [ht] at ht'
+  cases ht'
+  rcases hl with hl | hl
+  · exact hl hla
+  · exact hl hlb
+
+/-- fix D23, the exact answer: a proof that passes everything `check` tests before `tensor` (length
+of `v`, well-formedness vector, Merkle paths at the transcript positions, length of `E(v)`) is refused
+with `InvalidCommitment` when the vectors of `tensor` do not have the lengths of the announced shape -/
+theorem checkPre_wrong_lengths (pp : Params F D) (point : Point F) (c : Comm D)
+    (π : Proof F D) (o : Oracle F) (a b w : List F) (ht : tensor point c.nCols c.nRows = .ok (a, b))
+    (hl : a.length ≠ c.nCols ∨ b.length ≠ c.nRows)
+    (hv : π.opening.v.length = c.nCols)
+    (hwf : pp.checkWf = true → ∃ w, π.wf = some w ∧ w.length = c.nCols)
+    (hp : ∀ (j : Nat) col q, π.opening.columns[j]? = some col → o.indices[j]? = some q →
+      ∃ p, π.opening.paths[j]? = some p ∧ p.leafIndex = q ∧
+        recomputeRoot pp.hs (pp.colHash col) p = c.root)
+    (hen : pp.enc π.opening.v = .ok w) (hlen : w.length = c.nExtCols) :
+    checkPre pp point c π o = .error .invalidCommitment := by
+  have hr : ∃ wf, readWf pp.checkWf c.nCols π.wf = .ok wf := by
+    cases hc : pp.checkWf with
+    | false => exact ⟨none, (readWf_ok_iff _ _ _ _).2 (Or.inr ⟨rfl, rfl⟩)⟩
+    | true =>
+      obtain ⟨w0, hw0, hl0⟩ := hwf hc
+      exact ⟨some w0, (readWf_ok_iff _ _ _ _).2 (Or.inl ⟨rfl, w0, hw0, hl0, rfl⟩)⟩
+  obtain ⟨wf, hr⟩ := hr
+  unfold checkPre
+  rw [if_neg (by simpa using hv), hr]
+  simp only
+  rw [(checkPaths_ok_iff pp c.root _ _ _).2 hp]
+  simp only
+  rw [hen]
+  simp only
+  rw [if_neg (by simpa using hlen), ht]
+  simp only
+  rw [if_pos hl]
+
 /-! ### completeness -/
 
 theorem getElem?_of_lt_length {α : Type} (l : List α) (q : Nat) (d : α) (h : q < l.length) :
@@ -500,10 +581,13 @@ theorem colOf_length (rows : List (List F)) (j : Nat) : (colOf rows j).length = 
 /-- The honest proof for the row combination `b` satisfies the published relation at a point whose
 `tensor` is `(a, b')` as soon as `b'` and `b` combine the opened columns to the same entries (in
 particular for `b' = b`): any linear encoder, any shape, any oracle with positions inside the
-codeword. -/
+codeword.  `ha`, `hb'` (the vectors of `tensor` have the lengths of the matrix; needed since fix D23,
+without them `check` refuses): automatic for a univariate point (`tensor_uni_lengths`) and for a
+multilinear point on a power-of-two shape (`tensor_ml_lengths_fit`). -/
 theorem honest_preRelation_gen (pp : Params F D) (point : Point F) (coeffs : List F)
     (E : List F → List F) (k : Nat) (h : Encodes pp coeffs E k) (a b b' : List F) (o : Oracle F)
     (ht : tensor point (coeffMat pp.dims coeffs).m (coeffMat pp.dims coeffs).n = .ok (a, b'))
+    (ha : a.length = (coeffMat pp.dims coeffs).m) (hb' : b'.length = (coeffMat pp.dims coeffs).n)
     (hi : ∀ i ∈ o.indices, i < k)
     (hbb : ∀ q ∈ o.indices, dot b' (colOf (extOf pp coeffs E k).rows q)
       = dot b (colOf (extOf pp coeffs E k).rows q)) :
@@ -538,7 +622,7 @@ theorem honest_preRelation_gen (pp : Params F D) (point : Point F) (coeffs : Lis
     exact (verifyPath_iff _ _ _ _).1
       (merkle_verify_path pp.hs _ q _ hd (leavesOf_get pp (extOf pp coeffs E k) q hq))
   · refine ⟨E (vecMat b (coeffMat pp.dims coeffs).rows (coeffMat pp.dims coeffs).m), b',
-      h.enc _ (vecMat_length _ _ _), h.lin.len _ (vecMat_length _ _ _), ht, ?_, ?_⟩
+      h.enc _ (vecMat_length _ _ _), h.lin.len _ (vecMat_length _ _ _), ht, ha, hb', ?_, ?_⟩
     · intro j q hqj
       obtain ⟨x, hx1, hx2⟩ := hcol b q (hmem j q hqj)
       refine ⟨colOf (extOf pp coeffs E k).rows q, x, by simp [honestProof, hqj], hx1, ?_⟩
@@ -554,17 +638,18 @@ theorem honest_preRelation_gen (pp : Params F D) (point : Point F) (coeffs : Lis
 theorem honest_preRelation (pp : Params F D) (point : Point F) (coeffs : List F)
     (E : List F → List F) (k : Nat) (h : Encodes pp coeffs E k) (a b : List F) (o : Oracle F)
     (ht : tensor point (coeffMat pp.dims coeffs).m (coeffMat pp.dims coeffs).n = .ok (a, b))
+    (ha : a.length = (coeffMat pp.dims coeffs).m) (hb : b.length = (coeffMat pp.dims coeffs).n)
     (hi : ∀ i ∈ o.indices, i < k) :
     PreRelation pp point
       ⟨(coeffMat pp.dims coeffs).n, (coeffMat pp.dims coeffs).m, k,
         merkleRoot pp.hs (leavesOf pp (extOf pp coeffs E k))⟩
       (honestProof pp coeffs E k b o) o a :=
-  honest_preRelation_gen pp point coeffs E k h a b b o ht hi (fun _ _ => rfl)
+  honest_preRelation_gen pp point coeffs E k h a b b o ht ha hb hi (fun _ _ => rfl)
 
 /-- **The honest proof at another point: exact condition.**  The proof made for the row
 combination `b` passes the pre-value tests at a point with `tensor = (a', b')` (same transcript
 positions) iff `b'` and `b` agree on the opened columns: `(b' − b)·M_ext[:, q] = 0` for every opened
-position `q`. -/
+position `q` — and (fix D23) `a'`, `b'` have the lengths of the matrix. -/
 theorem honest_preRelation_other_iff (pp : Params F D) (point' : Point F) (coeffs : List F)
     (E : List F → List F) (k : Nat) (h : Encodes pp coeffs E k) (a' b b' a'' : List F) (o : Oracle F)
     (ht : tensor point' (coeffMat pp.dims coeffs).m (coeffMat pp.dims coeffs).n = .ok (a', b'))
@@ -573,14 +658,15 @@ theorem honest_preRelation_other_iff (pp : Params F D) (point' : Point F) (coeff
       ⟨(coeffMat pp.dims coeffs).n, (coeffMat pp.dims coeffs).m, k,
         merkleRoot pp.hs (leavesOf pp (extOf pp coeffs E k))⟩
       (honestProof pp coeffs E k b o) o a'' ↔
-    a'' = a' ∧ ∀ q ∈ o.indices, dot b' (colOf (extOf pp coeffs E k).rows q)
-      = dot b (colOf (extOf pp coeffs E k).rows q) := by
+    a'' = a' ∧ a'.length = (coeffMat pp.dims coeffs).m ∧ b'.length = (coeffMat pp.dims coeffs).n ∧
+      ∀ q ∈ o.indices, dot b' (colOf (extOf pp coeffs E k).rows q)
+        = dot b (colOf (extOf pp coeffs E k).rows q) := by
   constructor
-  · rintro ⟨_, _, _, w, b2, hw, _, ht2, hcols, _⟩
+  · rintro ⟨_, _, _, w, b2, hw, _, ht2, hla, hlb, hcols, _⟩
     simp only at ht2
     rw [ht] at ht2
     cases ht2
-    refine ⟨rfl, ?_⟩
+    refine ⟨rfl, hla, hlb, ?_⟩
     intro q hq
     obtain ⟨j, hj⟩ := List.mem_iff_getElem?.1 hq
     obtain ⟨col, x, hc, hx, hd⟩ := hcols j q hj
@@ -599,13 +685,15 @@ theorem honest_preRelation_other_iff (pp : Params F D) (point' : Point F) (coeff
       (by rw [h.lin.len _ (vecMat_length _ _ _)]; exact hq')
     rw [hx'] at hx
     cases hx; rfl
-  · rintro ⟨rfl, hbb⟩
-    exact honest_preRelation_gen pp point' coeffs E k h a'' b b' o ht hi hbb
+  · rintro ⟨rfl, hla, hlb, hbb⟩
+    exact honest_preRelation_gen pp point' coeffs E k h a'' b b' o ht hla hlb hi hbb
 
-/-- `check` on one honest opening continues with `true` for the value `⟨b·M, a⟩` -/
+/-- `check` on one honest opening continues with `true` for the value `⟨b·M, a⟩` (`ha`, `hb`: the
+vectors of `tensor` fit the matrix — since fix D23 `check` refuses otherwise) -/
 theorem checkOne_honest (pp : Params F D) (point : Point F) (coeffs : List F)
     (E : List F → List F) (k : Nat) (h : Encodes pp coeffs E k) (a b : List F) (o : Oracle F)
     (ht : tensor point (coeffMat pp.dims coeffs).m (coeffMat pp.dims coeffs).n = .ok (a, b))
+    (ha : a.length = (coeffMat pp.dims coeffs).m) (hb : b.length = (coeffMat pp.dims coeffs).n)
     (hi : ∀ i ∈ o.indices, i < k) :
     checkOne pp point
       ⟨(coeffMat pp.dims coeffs).n, (coeffMat pp.dims coeffs).m, k,
@@ -613,7 +701,7 @@ theorem checkOne_honest (pp : Params F D) (point : Point F) (coeffs : List F)
       (dot (vecMat b (coeffMat pp.dims coeffs).rows (coeffMat pp.dims coeffs).m) a)
       (honestProof pp coeffs E k b o) o = .ok true := by
   unfold checkOne
-  rw [(checkPre_ok_iff _ _ _ _ _ _).2 (honest_preRelation pp point coeffs E k h a b o ht hi)]
+  rw [(checkPre_ok_iff _ _ _ _ _ _).2 (honest_preRelation pp point coeffs E k h a b o ht ha hb hi)]
   simp [honestProof]
 
 /-- the value the honest prover claims: `⟨b·M, a⟩` for `(a, b) = tensor(point)` -/
@@ -623,12 +711,13 @@ def claimed (pp : Params F D) (point : Point F) (coeffs : List F) : F :=
   | .error _ => 0
 
 /-- One polynomial and the sponge outputs of its opening are in the domain of the scheme:
-the encoder is linear on the rows, `tensor` produces a `b` with one entry per row, the sponge
-returned `n_rows` coefficients and positions inside the codeword. -/
+the encoder is linear on the rows, `tensor` produces an `a` with one entry per column and a `b` with
+one entry per row (a point with the right number of coordinates: `check` refuses any other since fix
+D23), the sponge returned `n_rows` coefficients and positions inside the codeword. -/
 structure HonestRun (pp : Params F D) (point : Point F) (coeffs : List F) (o : Oracle F) : Prop where
   enc : ∃ E k, Encodes pp coeffs E k ∧ ∀ i ∈ o.indices, i < k
   tens : ∃ a b, tensor point (coeffMat pp.dims coeffs).m (coeffMat pp.dims coeffs).n = .ok (a, b) ∧
-    b.length = (coeffMat pp.dims coeffs).n
+    a.length = (coeffMat pp.dims coeffs).m ∧ b.length = (coeffMat pp.dims coeffs).n
   rlen : o.r.length = (coeffMat pp.dims coeffs).n
 
 /-- **Completeness of the whole `commit`/`open`/`check` run over a list of polynomials.** -/
@@ -642,7 +731,7 @@ theorem complete_all (pp : Params F D) (point : Point F) (polys : List (List F))
   | @cons coeffs o polys os h1 _ ih =>
     obtain ⟨css, πs, hc, ho, hk⟩ := ih
     obtain ⟨E, k, hE, hi⟩ := h1.enc
-    obtain ⟨a, b, ht, hb⟩ := h1.tens
+    obtain ⟨a, b, ht, ha, hb⟩ := h1.tens
     refine ⟨(⟨(coeffMat pp.dims coeffs).n, (coeffMat pp.dims coeffs).m, k,
           merkleRoot pp.hs (leavesOf pp (extOf pp coeffs E k))⟩,
        ⟨coeffMat pp.dims coeffs, extOf pp coeffs E k, leavesOf pp (extOf pp coeffs E k)⟩) :: css,
@@ -654,7 +743,7 @@ theorem complete_all (pp : Params F D) (point : Point F) (polys : List (List F))
       have hcl : claimed pp point coeffs
           = dot (vecMat b (coeffMat pp.dims coeffs).rows (coeffMat pp.dims coeffs).m) a := by
         simp [claimed, ht]
-      rw [hcl, checkOne_honest pp point coeffs E k hE a b o ht hi]
+      rw [hcl, checkOne_honest pp point coeffs E k hE a b o ht ha hb hi]
       exact hk
 
 /-! ### shape of proofs -/
